@@ -2,7 +2,7 @@ SPECIFICATION Spec
 CONSTANTS
   Members = {"a", "b", "c", "d"}
   Waiters = {"w1", "w2"}
-  Kinds = {"ok", "error", "panic"}
+  Kinds = {"ok", "error", "panic", "eof", "canceled", "deadline"}
   Modes = {"gate", "ctx"}
   Pres = {"new", "running", "finished"}
   Depth = 14
